@@ -54,6 +54,7 @@ class Gen:
     def __init__(self, rng, profile="full"):
         self.r = rng
         self.profile = profile
+        self.forloops = False
         self.hist = Counter()
 
     # ---------------------------------------------------------------- expressions
@@ -350,6 +351,22 @@ class Gen:
 
     def stmt(self, d, in_loop):
         r = self.r
+        if self.forloops and d > 0 and r.random() < 0.3:
+            self.hist["For"] += 1
+            q = r.random()
+            if q < 0.65:
+                it = ("Tuple", [self.simple(1) for _ in range(r.choice([0, 1, 2, 3]))])
+                self.hist["For.iter-tuple"] += 1
+            elif q < 0.8:
+                it = ("Name", ("U", r.randrange(NV - 1)))
+            else:
+                it = self.expr(2)
+                self.hist["For.iter-expr"] += 1
+            orelse = []
+            if r.random() < 0.04:
+                self.hist["loop-else"] += 1
+                orelse = self.block(d - 1, in_loop, 1)
+            return ("For", r.randrange(NV), it, self.block(d - 1, True), orelse)
         k = r.random()
         if d <= 0 or k < 0.45:
             return self.simple_stmt(max(d, 1) + 1)
